@@ -382,6 +382,15 @@ func genRadix(g *gen, th bool, scale int) {
 		n.Mod(n, new(big.Int).Lsh(big.NewInt(1), uint(bits)))
 		return n
 	}
+	// bases outside 2..64: to_radix is an error ("base too small" / "base too large")
+	for _, b := range []int{0, 1, 65, 100} {
+		for _, n := range []string{"0", "1", "5", "255", "18446744073709551616"} {
+			g.add(true, "radix rt %d %s", b, n)
+		}
+		for _, t := range []string{"0", "1", "10", "_"} {
+			g.add(true, "radix dec %d %s", b, hx([]byte(t)))
+		}
+	}
 	for b := 2; b <= 64; b++ {
 		lim := 130
 		if th {
